@@ -1129,8 +1129,10 @@ class Interp:
     def e_BoolOp(self, n, env):
         is_and = isinstance(n.op, ast.And)
         vals = []
+        last = None
         for e in n.values:
             v = self.eval(e, env)
+            last = v
             t = self.truth(v)
             if t is None:
                 t = self.ops.decide_test(e, v, env)
@@ -1149,6 +1151,9 @@ class Interp:
             if is_and:
                 self.ops.assume(e, True, env)
         if not vals:
+            # every operand was decided and neutral: python hands back the LAST operand (`None or ()` is `()`, `[1] and {2}` is `{2}`)
+            if last is not None and not (isinstance(last, Const) and (isinstance(last.v, bool) or last.v is None)) and not (isinstance(last, TV) and last.kind == "pybool"):
+                return last
             return TRUE if is_and else FALSE
         if len(vals) == 1:
             return vals[0]
